@@ -143,8 +143,14 @@ def solo_points(spec, url, gran="call", record=None, probe=None):
     return outs[0], pts[0]
 
 
+def plan_frozen(plan):
+    """read-only served arrays for half of the schedules (by the parity of the first preemption point), writeable for
+    the other half; the solo answers always come from a writeable application"""
+    return not plan or plan[0][1] % 2 == 0
+
+
 def check_schedule(ctx, spec, urls, plan, solo, where, gran="call"):
-    app, handler, ds = F.make_app(spec)
+    app, handler, ds = F.make_app(spec, plan_frozen(plan))
     snap = F.snapshot(ds)
     outs, pts, pre = run_schedule(app, urls, plan, gran=gran)
     case = {"oracle": "schedule", "gran": gran, "spec": spec, "urls": urls, "plan": [list(p) for p in plan]}
@@ -170,8 +176,8 @@ def check_schedule(ctx, spec, urls, plan, solo, where, gran="call"):
 def replay_case(c):
     spec, urls, plan = c["spec"], c["urls"], [tuple(p) for p in c["plan"]]
     gran = c.get("gran", "call")
-    solo = [F.call(F.make_app(spec)[0], u) for u in urls]
-    app, handler, ds = F.make_app(spec)
+    solo = [F.call(F.make_app(spec, False)[0], u) for u in urls]
+    app, handler, ds = F.make_app(spec, plan_frozen(plan))
     snap = F.snapshot(ds)
     rec = [[] for _ in urls]
     outs, pts, pre = run_schedule(app, urls, plan, gran=gran, record=rec)
@@ -234,6 +240,12 @@ TINY_GROUPS = [["/d.dods?s&s.i>1", "/d.dods?s.i"], ["/d.dods?a[1:2]", "/d.ascii?
 # lazy (IterData) sequences: hyperslab / selection / projection on the plain and on the ranged one
 LAZY_GROUPS = [["/d.dods?s[1:1:8]", "/d.ascii?r.g&r.j!=3"], ["/d.dods?r[1:1:8]", "/d.dods?s.i,s.w", "/d.ascii?s&s.i>1"]]
 
+# nested lazy sequences over list records and over numpy records: a selection on the inner sequence (its filter map runs
+# on the first source record) beside a plain read of the same sequence
+NEST_SCHED_SPEC = {"name": "d", "attrs": {"title": "nested-sched"},
+                   "vars": [v for v in F.NEST_SPEC["vars"] if v[1] in ("nl", "nr")]}
+NEST_GROUPS = [["/d.dods?nl&nl.ml.u>4", "/d.dods?nl"], ["/d.ascii?nr.mr.o&nr.mr.c<7", "/d.ascii?nr[1:4]&nr.mr.c>4"]]
+
 
 class Rec(object):
     """stands in for ctx inside pool workers: records the calls, the parent replays them"""
@@ -254,7 +266,7 @@ _solo_cache = {}
 def _solo(spec, url):
     key = (repr(spec), url)
     if key not in _solo_cache:
-        _solo_cache[key] = F.call(F.make_app(spec)[0], url)
+        _solo_cache[key] = F.call(F.make_app(spec, False)[0], url)
     return _solo_cache[key]
 
 
@@ -315,9 +327,9 @@ def explore(ctx, tier, rng, specs, search=False):
     off = rng.randrange(1 << 16)
     # warm-up in the parent (imports, regex and singledispatch caches) and the points of every request
     for spec, groups, label in ((F.FIXED_SPEC, FIXED_GROUPS, "fixed"), (TINY_SPEC, TINY_GROUPS, "tiny"),
-                                (F.LAZY_SPEC, LAZY_GROUPS, "lazy")):
+                                (F.LAZY_SPEC, LAZY_GROUPS, "lazy"), (NEST_SCHED_SPEC, NEST_GROUPS, "nested")):
         for gi, urls in enumerate(groups):
-            if label == "lazy":
+            if label in ("lazy", "nested"):
                 gi += 2         # sampled like the later fixed groups
             pts, lpts = [], []
             for u in urls:
